@@ -492,8 +492,24 @@ class Sym:
                     return
                 env.setdeep(name, ('call', 'append', (cur, v)))
                 return
+            if cur is not None and m == 'extend' and len(node.args) == 1 and cur[0] == 'acc' and cur[1] == 'list':
+                self._emit(env, name, ('flat', self.ev(node.args[0], env, fr)))
+                return
+            if cur is not None and m == 'extend' and len(node.args) == 1 and cur == ('list', ()):
+                env.setdeep(name, self.ev(node.args[0], env, fr))
+                return
             if cur is not None and m in ('update', 'extend', '__ior__') and len(node.args) == 1:
                 env.setdeep(name, ('call', m, (cur, self.ev(node.args[0], env, fr))))
+                return
+            if cur is not None and m == 'sort' and not node.args and cur[0] != 'acc':
+                # in-place sort: the name now holds sorted(<old value>, key=...)
+                kw = {k.arg: self.ev(k.value, env, fr) for k in node.keywords if k.arg}
+                t = ('sorted', cur, kw.get('key', NONE_T))
+                rev = kw.get('reverse')
+                env.setdeep(name, ('call', 'reversed', (t,)) if rev is not None and rev != lit(False) else t)
+                return
+            if cur is not None and m == 'reverse' and not node.args and not node.keywords and cur[0] != 'acc':
+                env.setdeep(name, ('call', 'reversed', (cur,)))
                 return
         if isinstance(node, ast.Call) and isinstance(node.func, ast.Attribute) and node.func.attr in ('append', 'add') and len(node.args) == 1 \
                 and isinstance(node.func.value, ast.Attribute) and isinstance(node.func.value.value, ast.Name) and env.get(node.func.value.value.id) == ('self',):
@@ -514,7 +530,7 @@ class Sym:
         mutated = set()
         assigned = set()
         for n in ast.walk(st):
-            if isinstance(n, ast.Call) and isinstance(n.func, ast.Attribute) and isinstance(n.func.value, ast.Name) and n.func.attr in ('append', 'add'):
+            if isinstance(n, ast.Call) and isinstance(n.func, ast.Attribute) and isinstance(n.func.value, ast.Name) and n.func.attr in ('append', 'add', 'extend'):
                 mutated.add(n.func.value.id)
             if isinstance(n, ast.Subscript) and isinstance(n.ctx, ast.Store) and isinstance(n.value, ast.Name):
                 mutated.add(n.value.id)
@@ -533,12 +549,16 @@ class Sym:
                     assigned.add(n.name)
         outer_assigned = {a for a in assigned if env.has(a) and a not in target_names}
         accs = {}
+        nested = {}  # accumulators of an enclosing loop that this loop appends to
         for name in mutated:
             cur = env.get(name)
             if cur is None:
                 continue
             if cur in (('list', ()), ('dict', ()), ('call', 'set', ())) or cur == ('list', ()) :
                 accs[name] = cur
+            elif cur[0] == 'acc' and cur[1] == 'list':
+                accs[name] = ('list', ())
+                nested[name] = cur
         uid = next(_uid)
         vars_ = self._bind_loop_vars(st.target, env, uid)
         body_env = _Env(env)
@@ -558,6 +578,8 @@ class Sym:
                 continue
             ems = self._fold_emissions(list(acc[2]))
             if len(ems) == 0:
+                if name in nested:
+                    env.setdeep(name, nested[name])
                 continue
             if len(ems) != 1:
                 env.setdeep(name, opaque(f'<loop-built {name}: {len(ems)} emissions>'))
@@ -565,9 +587,17 @@ class Sym:
             guard, what = ems[0]
             g = self._conj(guard)
             if what[0] == 'elem':
-                env.setdeep(name, ('map', varnames, what[1], seq, g))
+                built = ('map', varnames, what[1], seq, g)
+            elif what[0] == 'flat':
+                built = ('call', 'flatten', (('map', varnames, what[1], seq, g),))
             else:
-                env.setdeep(name, ('mapdict', varnames, what[1], what[2], seq, g))
+                built = ('mapdict', varnames, what[1], what[2], seq, g)
+            if name in nested:
+                # inner loop appending to the accumulator of the enclosing loop: one `extend` emission of the outer iteration
+                env.setdeep(name, nested[name])
+                self._emit(env, name, ('flat', built))
+                continue
+            env.setdeep(name, built)
             if name.startswith('self.') and name in getattr(self, '_attr_nodes', {}):
                 c0, tgt = self._attr_nodes[name]
                 self._field_stores.append((c0, tgt, env.get(name)))
@@ -591,8 +621,8 @@ class Sym:
                         continue
                     a, b = g1[-1], g2[-1]
                     if self._neg(a) == b or self._neg(b) == a:
-                        if w1[0] == 'elem':
-                            merged = ('elem', ('cond', a, w1[1], w2[1]))
+                        if w1[0] in ('elem', 'flat'):
+                            merged = (w1[0], ('cond', a, w1[1], w2[1]))
                         elif w1[1] == w2[1]:
                             merged = ('kv', w1[1], ('cond', a, w1[2], w2[2]))
                         else:
